@@ -2,6 +2,7 @@
 obligations, exception table.  The interpreter proper is in interp.py."""
 import builtins
 import hashlib
+import os
 import time
 
 import z3
@@ -181,7 +182,7 @@ class Exec:
         self.stats = {'paths': 0, 'feas_checks': 0, 'feas_time': 0.0, 'infeasible': 0}
         self.cur_func = None
         self.site_ord = {}
-        self.feas_timeout = 2000
+        self.feas_timeout = int(os.environ.get('VERIF_FEAS_MS', '8000'))      # an undecided feasibility check keeps the path (sound); generous so that a loaded machine does not create spurious paths
         self.reset_path()
 
     # -------------------------------------------------------------- per path
